@@ -56,4 +56,19 @@ theorem ketGHZ_norm (n : ℕ) (hn : n ≠ 0) : ∑ x ∈ Finset.range (2 ^ n), (
   have b : 2 ^ n - 1 < 2 ^ n := by omega
   simp [a, b]; norm_num
 
+theorem card_filter_range (n : ℕ) (p : ℕ → Bool) :
+    ((Finset.range n).filter (fun x => p x = true)).card = ((List.range n).filter p).length := by
+  simp [Finset.card, Finset.filter, Finset.range, Multiset.range]
+
+theorem ketDicke_norm_partial (klist : List ℕ) (h : dickeCount klist ≠ 0) :
+    ∑ x ∈ Finset.range (klist.length ^ klist.sum), (ketDicke klist x).sq = 1 := by
+  have hq : (dickeCount klist : ℚ) ≠ 0 := Nat.cast_ne_zero.mpr h
+  have : ∀ x, (ketDicke klist x).sq = if dickeMatch klist x = true then 1 / (dickeCount klist : ℚ) else 0 := by
+    intro x; unfold ketDicke; split_ifs <;> simp [SAmp.zero]
+  simp only [this]
+  rw [← Finset.sum_filter, Finset.sum_const, card_filter_range]
+  show ((List.filter (dickeMatch klist) (List.range (klist.length ^ klist.sum))).length : ℕ) • (1 / (dickeCount klist : ℚ)) = 1
+  rw [show (List.filter (dickeMatch klist) (List.range (klist.length ^ klist.sum))).length = dickeCount klist from rfl]
+  simp [hq]
+
 end Numqi.Catalogue
